@@ -73,6 +73,9 @@ class Harness:
 
 def run_entry():
     req = json.loads(sys.stdin.read())
+    import logging
+
+    logging.disable(logging.CRITICAL)
     try:
         mod = importlib.import_module(req["module"])
         obj = getattr(mod, req["func"])
